@@ -173,9 +173,18 @@ func c09OpeningFence(src []byte, pos int) (byte, int, int) {
 				j++
 			}
 			if j-i >= 3 {
+				// upper bound of the fence's own indentation: the white space directly before it (a tab may stand for up to
+				// three columns of it; a fence is never indented more than three)
 				ind := 0
-				for k := i - 1; k >= 0 && line[k] == ' '; k-- {
+				for k := i - 1; k >= 0 && (line[k] == ' ' || line[k] == '\t'); k-- {
+					if line[k] == '\t' {
+						ind = 3
+						break
+					}
 					ind++
+				}
+				if ind > 3 {
+					ind = 3
 				}
 				return line[i], j - i, ind
 			}
@@ -634,7 +643,7 @@ func runC09(c *core.Ctx) {
 	corpus := loadCorpus(c)
 	r := c.Rng
 	// (i) independence
-	n1 := c.PerShard(c.N(900000, 25000000))
+	n1 := c.PerShard(c.N(600000, 25000000))
 	for i := 0; i < n1; i++ {
 		a, b := c09Doc(r, corpus), c09Doc(r, corpus)
 		switch r.Intn(24) {
@@ -656,7 +665,7 @@ func runC09(c *core.Ctx) {
 		}
 	}
 	// (ii) moving definitions
-	n2 := c.PerShard(c.N(500000, 15000000))
+	n2 := c.PerShard(c.N(350000, 15000000))
 	for i := 0; i < n2; i++ {
 		d := c09Doc(r, corpus)
 		if r.Intn(24) == 0 {
